@@ -321,7 +321,13 @@ class World:
                 if n in self.ents:
                     self.check_bc_relation(self.ents[n], ctx)
         # I3 coherence by shadow solve
-        if "I3" in self.inv:
+        if "I3" in self.inv and self.cfg.get("i3_only_copies"):
+            # C14: "copy() yields an equal variable" includes how it behaves in a solve
+            if ctx.op["k"] == "copy":
+                for n in ctx.created:
+                    if n in self.ents and self.ents[n].kind == "v":
+                        self.check_coherence(self.ents[n], ctx, prop=("C14", "C09"))
+        elif "I3" in self.inv:
             todo = []
             for n in ctx.i3:
                 if n in self.ents and self.ents[n].kind == "v" and n not in todo:
@@ -613,7 +619,7 @@ class World:
             out["exp"] = ("raise", type(ex).__name__)
         return out, terms, rhs
 
-    def check_coherence(self, e, ctx):
+    def check_coherence(self, e, ctx, prop="C09"):
         if e.meta.get("bc") not in self.ents:
             return
         if not self.bc_ok(e):
@@ -630,6 +636,8 @@ class World:
         if st[0] >= 2:
             self.probes["i3:checked-shared"] += 1
         for mode in ("imp", "exp"):
+            if mode == "imp" and e.meta.get("noprecalc") and A.cache_of(e.obj) is None:
+                continue        # built with BCsTerm_precalc=False: not a solvePDE variable
             sh = copy.deepcopy(e.obj)
             try:
                 if mode == "imp":
@@ -655,18 +663,18 @@ class World:
                 if got[0] != "raise":
                     # the fresh start is rejected (documented error) but the
                     # object with history is accepted: it is using stale state
-                    self.flag("C09", "I3", "accepts-invalid/" + mode,
+                    self.flag(prop, "I3", "accepts-invalid/" + mode,
                               {"var": e.name, "want": want[1]})
                     return
                 continue
             if got[0] == "raise":
                 sig = "raises/origin=%s" % e.meta.get("origin")
-                self.flag("C09", "I3", sig, {"var": e.name, "mode": mode, "exc": got[1],
+                self.flag(prop, "I3", sig, {"var": e.name, "mode": mode, "exc": got[1],
                                              "after_fault": ctx.fault})
                 return
             if not same(got[1], want[1]):
                 sig = self.stale_signature(e, ctx)
-                self.flag("C09", "I3", sig, {"var": e.name, "mode": mode,
+                self.flag(prop, "I3", sig, {"var": e.name, "mode": mode,
                                              "maxdiff": maxdiff(got[1], want[1])})
                 return
 
@@ -762,7 +770,11 @@ class World:
         if ghosts:
             origin = "with-ghosts"
         try:
-            v = pf.CellVariable(*args)
+            if a.get("noprecalc"):
+                v = pf.CellVariable(*args, BCsTerm_precalc=False)
+                self.probes["var:BCsTerm_precalc-False"] += 1
+            else:
+                v = pf.CellVariable(*args)
         except Exception as ex:
             ctx.status = "raised:" + type(ex).__name__
             self.stats["fault-fired:ctor-raises"] += 1
@@ -770,6 +782,8 @@ class World:
         e = self.register_var(op["out"], v, ment.name, origin, ctx,
                               bc_out=op.get("outb"), created_kind="var",
                               ghost_trusted=not ghosts)
+        if a.get("noprecalc"):
+            e.meta["noprecalc"] = True
         ctx.i3.append(e.name)
         if not ghosts:
             ctx.i4.append(e.name)
@@ -1053,6 +1067,8 @@ class World:
     def op_solve(self, a, op, ctx):
         pf = self.pf
         vent = self.get(a["v"], "v")
+        if vent.meta.get("noprecalc") and A.cache_of(vent.obj) is None:
+            raise Skip("variable was built without the boundary term (BCsTerm_precalc=False)")
         ment = self.mesh_of(vent)
         bent = self.get(vent.meta["bc"], "b")
         items = self._term_items(a["terms"])
@@ -1145,7 +1161,7 @@ class World:
             vent.meta["ghost_trusted"] = True
             ctx.i4.append(vent.name)
             finite = M is not None and x_exp is not None and np.all(np.isfinite(x_exp))
-            if "I4" in self.inv and finite and not degenerate \
+            if ("I4" in self.inv or self.prop == "C04") and finite and not degenerate \
                     and mode not in ("ext_mark", "ext_nan"):
                 self.check_interior_ghost_consistency(vent, M, RHS, x_exp, ctx)
             if "I6" in self.inv and finite and not degenerate \
@@ -1208,7 +1224,10 @@ class World:
         if q.size and not q.max() <= max(1e-9, 1e3 * res0):
             nd = len(faces)
             flags = "".join("P" if O.axis_periodic(st, ax) else "-" for ax in range(nd))
-            self.flag("C03", "I4", "%s/solve/interior-vs-reported-ghosts/%s" % (cls, flags),
+            # C03: solved interior and reported boundary values are mutually consistent;
+            # C04: interior equations together with the variable's boundary equations
+            self.flag(("C03", "C04"), "I4" if self.prop != "C04" else "I5",
+                      "%s/solve/interior-vs-reported-ghosts/%s" % (cls, flags),
                       {"var": vent.name, "residual": float(q.max())})
 
     def check_step_equation(self, vent, twin, items, x_exp_unused, ctx):
@@ -1823,7 +1842,15 @@ class World:
             if not arrs:
                 raise Skip("nothing to scribble")
             arr = arrs[int(a.get("i", 0)) % len(arrs)]
-            arr[...] = arr * 0.5 + x
+            ment = self.ents.get(e.meta.get("mesh"))
+            n_full = int(np.prod(np.asarray(ment.obj.dims) + 2)) if ment is not None else -1
+            if arr.ndim == 1 and arr.size == n_full and e.meta.get("kind") != "BC":
+                # a right-hand-side vector: a user edit keeps it a term, i.e. it
+                # stays confined to the interior-cell equations
+                inner, _ = O.interior_index(ment.obj.dims)
+                arr[inner] = arr[inner] * 0.5 + x
+            else:
+                arr[...] = arr * 0.5 + x
         elif e.kind == "f":
             arrs = [arr for _, arr in A.face_arrays(e.obj) if arr.size]
             arr = arrs[int(a.get("i", 0)) % len(arrs)]
